@@ -17,6 +17,8 @@ Granularity of actions = the code's atomic sections:
 * `tick`/`stale` — the batcher's timeout callback delivering the token captured by the latest / the
   previous `timer.Set` on `BatchTimedOut`.
   An item may also be `done` (`SourceComplete`): flush, deactivate the sender, stop the operator when none is left.
+* `cancel sr`    — the context of sender `sr`'s call in flight is cancelled (client gave up): neither the wait on
+  `allBarriersReceived` nor the hand-over to the consumer looks at the context, so nothing changes.
 * `armFail`      — environment: the next `OperatorCheckpointComplete` call fails (job unreachable).
 * `redeploy`     — `HandleDeploy` on the running operator (fresh storage, no checkpoints to restore): the
   half-aligned checkpoint of the previous deployment is abandoned, its parked senders are turned away with an
@@ -215,6 +217,7 @@ inductive Act where
   | tick
   | stale
   | armFail
+  | cancel (sr : Nat)
   | redeploy
 deriving Repr
 
@@ -255,6 +258,7 @@ def stepLive (s : St) : Act → St × List Obs
   | .tick => timeout s s.lastSet
   | .stale => timeout s s.prevSet
   | .armFail => ({ s with ackFails := true }, [])
+  | .cancel _ => (s, [])
   | .redeploy => redeploy s
 
 /-- after `o.stop()` the consumer is gone: nothing happens any more -/
